@@ -1342,15 +1342,18 @@ def _hist_modify(m: Any, o: Any) -> None:
         o.pitch = 12.0
 
 
-def run_history(steps: list) -> list:
-    """Run the steps in ONE new instance of the module; per step the snapshot of what the call returned (None for a modification)."""
+def run_history(steps: list, changed: list | None = None) -> list:
+    """Run the steps in ONE new instance of the module; per step the snapshot of what the call returned (None for a modification).
+    `changed` collects (i, j, before, after): the object handed out by step i no longer had the value it was returned with (or
+    was given by the caller) after step j ran - a later call reached an object that belongs to the caller."""
     import warnings
     m = fresh_math()
     objs: list[Any] = []
+    base: list[Any] = []       # what each handed-out object must still look like
     out: list[Any] = []
     with warnings.catch_warnings():
         warnings.simplefilter('ignore')
-        for st in steps:
+        for j, st in enumerate(steps):
             if st[0] == 'call':
                 try:
                     o = HIST_ENTRIES[st[1]](m, st[2])
@@ -1358,6 +1361,7 @@ def run_history(steps: list) -> list:
                     o = e
                 objs.append(o)
                 out.append(hsnap(o))
+                base.append(out[-1])
             else:
                 k = st[1]
                 if 0 <= k < len(objs) and objs[k] is not None:
@@ -1365,8 +1369,19 @@ def run_history(steps: list) -> list:
                         _hist_modify(m, objs[k])
                     except Exception:      # noqa: BLE001
                         pass
+                    # the caller's own modification: objects that ARE this object follow it (the same object handed out twice is
+                    # reported through the values: the second call's result differs from the call alone once the first is modified)
+                    for i in range(len(objs)):
+                        if objs[i] is objs[k]:
+                            base[i] = hsnap(objs[i])
                 objs.append(None)
                 out.append(None)
+                base.append(None)
+            if changed is not None and st[0] == 'call':
+                for i in range(j):
+                    if objs[i] is not None and not isinstance(objs[i], BaseException) and hsnap(objs[i]) != base[i]:
+                        changed.append((i, j, base[i], hsnap(objs[i])))
+                        base[i] = hsnap(objs[i])
     return out
 
 
@@ -1381,12 +1396,19 @@ def call_alone(st: list) -> Any:
 
 
 def history_problem(steps: list) -> tuple[int, str, str] | None:
-    """(index, key, description) of the first call of the history that does not return what it returns alone."""
+    """(index, key, description) of the first call of the history that does not return what it returns alone, or that changes an
+    object handed out by an earlier call."""
     _CURRENT[0] = {'kind': 'history', 'steps': steps}
-    res = run_history(steps)
+    changed: list = []
+    res = run_history(steps, changed)
     for i, (st, r) in enumerate(zip(steps, res)):
         if st[0] != 'call':
             continue
+        ch = next((c for c in changed if c[1] == i), None)
+        if ch is not None:
+            return (i, f'history-result-changed:{steps[ch[0]][1]}',
+                    f'the object returned by step {ch[0]}, {steps[ch[0]][1]}{tuple(steps[ch[0]][2])!r} = {hshow(ch[2])}, became {hshow(ch[3])} '
+                    f'when step {i}, {st[1]}{tuple(st[2])!r}, ran: the caller\'s object is shared with the module')
         alone = call_alone(st)
         if r != alone:
             before = sum(1 for s in steps[:i] if s[0] == 'call')
@@ -1500,6 +1522,37 @@ def history_sweeps() -> list[list]:
     return out
 
 
+HIST_CANONICAL_ARGS = [30.0, 60.0, 45.0]
+
+
+def history_handed_out() -> list[list]:
+    """Deterministic part: every entry point called, its result modified by the caller, called again with the same arguments, the
+    second result modified, called a third time, then once with other arguments (a result that IS a long-lived object of the
+    module - a cached matrix, a shared identity, a scratch object - shows up as a changed answer or a changed earlier result)."""
+    out = []
+    v = [128.0, -64.0, 16.0]
+    for e in HIST_ENTRIES:
+        if e.endswith('from_angstr') and '@' not in e or e.endswith('.from_str') and '@' not in e or e == 'parse_vec_str':
+            forms = [['10 20 30'], ['', 10.0, 20.0, 30.0]]
+            other = ['40 50 60']
+        elif '@' in e or e == 'Vec.rotate_by_str':
+            forms = [[v, ['10 20 30']]]
+            other = [v, ['40 50 60']]
+        elif e.endswith(('from_pitch', 'from_yaw', 'from_roll')):
+            forms, other = [[33.0]], [12.0]
+        elif e.endswith('axis_angle'):
+            forms, other = [[0.0, 0.0, 1.0, 33.0]], [1.0, 0.0, 0.0, 12.0]
+        elif e.endswith('from_basis'):
+            forms, other = [[[1.0, 0.0, 0.0], [0.0, 1.0, 0.0], None], [None, None, None]], [[0.0, 1.0, 0.0], [-1.0, 0.0, 0.0], None]
+        elif e.endswith('()') and e.split('(')[0] in ('Matrix', 'FrozenMatrix') or e == 'to_matrix(None)':
+            forms, other = [[]], []
+        else:
+            forms, other = [list(HIST_CANONICAL_ARGS), []] if e.endswith('()') else [list(HIST_CANONICAL_ARGS)], [5.0, 6.0, 7.0]
+        for a in forms:
+            out.append([['call', e, a], ['modify', 0], ['call', e, a], ['modify', 2], ['call', e, a], ['call', e, other], ['call', e, a]])
+    return out
+
+
 def search_histories(ck: Ck, found: dict) -> None:
     def one(steps: list, group: str) -> None:
         ck.count(group)
@@ -1518,6 +1571,8 @@ def search_histories(ck: Ck, found: dict) -> None:
                 {'kind': 'history', 'steps': small})
     for steps in history_sweeps():
         one(steps, 'history_sweeps')
+    for steps in history_handed_out():
+        one(steps, 'history_handed_out')
     for _ in range(ck.budget(150, 2000)):
         one(gen_history(ck.rng), 'history_cases')
     ck.sample({'history': gen_history(random.Random(ck.seed))})
@@ -2274,6 +2329,10 @@ def _replay(data: dict) -> int:
                 print(f'  step {i}: {st[1]}{tuple(st[2])!r} -> {hshow(out)}' + ('' if out == alone else f'   BUT alone in a new process: {hshow(alone)}'))
             else:
                 print(f'  step {i}: the caller modifies the object returned by step {st[1]}')
+        changed: list = []
+        run_history(steps, changed)
+        for c in changed:
+            print(f'  the object returned by step {c[0]} was {hshow(c[2])} and became {hshow(c[3])} when step {c[1]} ran')
         pr = history_problem(steps)
         print('problem   :', pr[2] if pr else 'none')
         return 1 if pr else 0
